@@ -26,6 +26,7 @@ static struct {
 	uint64_t last_handler_end;
 	int fd_closed;
 	int sib_events, caw_late_starts, caw_returned_while_running, raised;
+	int caw_precancel;   // cancel_and_wait mode: the source is cancelled first and never activated explicitly (cancel_and_wait has to activate it)
 	int ch_form;   // how the cancellation handler is set: block / function, plain / mandatory
 	int done, nthreads, caw_second;   // caw_second: a second thread races the cancel_and_wait with 1 a plain cancel, 2 another cancel_and_wait
 	int activated;
@@ -191,10 +192,15 @@ static void c16_run(void) {
 	C.cancel_after = g_range(0, 3);
 	C.susp_cancel = g_chance(1, 5);
 	C.caw_second = (C.cmode == CM_AND_WAIT && g_chance(1, 2)) ? 1 + (int)g_n(2) : 0;
+	C.caw_precancel = C.cmode == CM_AND_WAIT && g_chance(1, 4);
+	// (not two cancel_and_wait calls racing on a source nobody has activated: the second one can meet the suspend count
+	// that the first one's activation holds for a moment and is refused as "Source is suspended" -- see DESIGN.md 8.3)
+	if (C.caw_precancel && C.caw_second == 2) C.caw_second = 1;
 	C.sibling = ((C.stype == ST_READ || C.stype == ST_WRITE) && C.use_socket && g_chance(1, 3)) || (C.stype == ST_SIGNAL && g_chance(1, 3));
 	h_sample("%s source on a %s queue%s; %s after >= %d handler invocation(s)%s%s%s\n", stn[C.stype], C.tqkind == 0 ? "serial" : C.tqkind == 1 ? "concurrent" : "global",
 		(C.stype == ST_READ || C.stype == ST_WRITE) ? (C.use_socket ? " (socketpair)" : " (pipe)") : "", cmn[C.cmode], C.cancel_after, (C.peer_closes && (C.stype == ST_READ || C.stype == ST_WRITE)) ? "; the peer closes its end during the run" : "",
 		(C.susp_cancel && (C.cmode == CM_OTHER_THREAD || C.cmode == CM_TWICE)) ? "; suspended while it is cancelled" : "", C.sibling ? (C.stype == ST_SIGNAL ? "; a second source monitors the same signal" : "; a second source monitors the other direction of the same descriptor") : "");
+	if (C.caw_precancel) h_sample("the source is cancelled first and never activated explicitly\n");
 	if (C.caw_second) h_sample("a second thread races it with %s\n", C.caw_second == 1 ? "dispatch_source_cancel" : "another dispatch_source_cancel_and_wait");
 	h_announce();
 	C.tq = C.tqkind == 0 ? dispatch_queue_create("c16-serial", NULL) : C.tqkind == 1 ? dispatch_queue_create("c16-conc", DISPATCH_QUEUE_CONCURRENT) : dispatch_get_global_queue(0, 0);
@@ -238,7 +244,9 @@ static void c16_run(void) {
 		do_cancel("main (before activation)");
 		if (st && sim_join(st, LIVENESS_NS)) h_stuck("liveness", "dispatch_source_set_cancel_handler did not return");
 	}
-	dispatch_activate(C.ds); C.activated = 1;
+	if (C.caw_precancel) do_cancel("main (before activation; cancel_and_wait follows, nobody activates)");
+	else dispatch_activate(C.ds);
+	C.activated = 1;
 	if (C.tqkind == 2 && C.cmode != CM_AND_WAIT) { /* no marker on a global queue: accept */ }
 	sim_thread *th[4]; int n = 0;
 	th[n++] = sim_spawn(event_source_thread, NULL, "events");
